@@ -12,6 +12,8 @@ lifted over the tree:
 * `AllNums P t` — `P` holds at every number node of the syntax tree `t` (structural recursion);
 * `derives_allNums` — every number node of a tree derived from `bs` is a well-formed literal no longer than `bs`;
 * `leaf_fr` / `leaf_default` — the per-literal statements about `numOf` (not about `parseTop` on a bare literal).
+* `numNodes` / `numLeaves`, `canon_leaves` — every number of the value `canon t` is `numOf` of a number node of `t`
+  (`objectOf` only selects among the member values: `lookupLast_mem`), so the leaf statements hold of the value's numbers.
 -/
 namespace SJ.Proofs.C02Floats
 open SJ SJ.Spec.Grammar SJ.Spec.Ieee
@@ -227,5 +229,256 @@ theorem leaf_default (cfg : Spec.Canon.Cfg) (hfr : cfg.fr = false) (hap : cfg.ap
     | lit t => trivial
   · rw [hn] at hs
     exact absurd hs (SJ.Proofs.NumLink.numOfLit_ne_lit _ s)
+
+/-! ## from the tree to the value: every number of `canon t` is `numOf` of a number node of `t` -/
+
+mutual
+/-- the number literals of a syntax tree, in source order -/
+def numNodes : CST → List NumParts
+  | .num p => [p]
+  | .arr xs => numNodesList xs
+  | .obj ms => numNodesMembers ms
+  | _ => []
+def numNodesList : List CST → List NumParts
+  | [] => []
+  | x :: xs => numNodes x ++ numNodesList xs
+def numNodesMembers : List (List StrItem × CST) → List NumParts
+  | [] => []
+  | (_, x) :: ms => numNodes x ++ numNodesMembers ms
+end
+
+mutual
+/-- the numbers of a value (array elements, object member values, at any depth) -/
+def numLeaves : JV → List Num
+  | .num x => [x]
+  | .arr xs => numLeavesList xs
+  | .obj ms => numLeavesMembers ms
+  | _ => []
+def numLeavesList : List JV → List Num
+  | [] => []
+  | x :: xs => numLeaves x ++ numLeavesList xs
+def numLeavesMembers : List (Bytes × JV) → List Num
+  | [] => []
+  | (_, x) :: ms => numLeaves x ++ numLeavesMembers ms
+end
+
+mutual
+theorem allNums_mem (P : NumParts → Prop) : (t : CST) → AllNums P t → ∀ p ∈ numNodes t, P p
+  | .null => by intro _ p hp; simp [numNodes] at hp
+  | .true_ => by intro _ p hp; simp [numNodes] at hp
+  | .false_ => by intro _ p hp; simp [numNodes] at hp
+  | .str _ => by intro _ p hp; simp [numNodes] at hp
+  | .num q => by
+    intro h p hp
+    simp only [numNodes, List.mem_singleton] at hp
+    simp only [AllNums] at h
+    rw [hp]; exact h
+  | .arr xs => by
+    intro h p hp
+    simp only [numNodes] at hp
+    simp only [AllNums] at h
+    exact allNumsList_mem P xs h p hp
+  | .obj ms => by
+    intro h p hp
+    simp only [numNodes] at hp
+    simp only [AllNums] at h
+    exact allNumsMembers_mem P ms h p hp
+theorem allNumsList_mem (P : NumParts → Prop) : (xs : List CST) → AllNumsList P xs → ∀ p ∈ numNodesList xs, P p
+  | [] => by intro _ p hp; simp [numNodesList] at hp
+  | x :: xs => by
+    intro h p hp
+    simp only [numNodesList, List.mem_append] at hp
+    simp only [AllNumsList] at h
+    rcases hp with hp | hp
+    · exact allNums_mem P x h.1 p hp
+    · exact allNumsList_mem P xs h.2 p hp
+theorem allNumsMembers_mem (P : NumParts → Prop) :
+    (ms : List (List StrItem × CST)) → AllNumsMembers P ms → ∀ p ∈ numNodesMembers ms, P p
+  | [] => by intro _ p hp; simp [numNodesMembers] at hp
+  | (_, x) :: ms => by
+    intro h p hp
+    simp only [numNodesMembers, List.mem_append] at hp
+    simp only [AllNumsMembers] at h
+    rcases hp with hp | hp
+    · exact allNums_mem P x h.1 p hp
+    · exact allNumsMembers_mem P ms h.2 p hp
+end
+
+theorem mem_numLeavesMembers (x : Num) : (l : List (Bytes × JV)) →
+    (x ∈ numLeavesMembers l ↔ ∃ kv ∈ l, x ∈ numLeaves kv.2)
+  | [] => by simp [numLeavesMembers]
+  | (k, v) :: l => by
+    simp only [numLeavesMembers, List.mem_append, List.mem_cons, mem_numLeavesMembers x l]
+    constructor
+    · rintro (h | ⟨kv, hkv, h⟩)
+      · exact ⟨(k, v), .inl rfl, h⟩
+      · exact ⟨kv, .inr hkv, h⟩
+    · rintro ⟨kv, hkv | hkv, h⟩
+      · rw [hkv] at h; exact .inl h
+      · exact .inr ⟨kv, hkv, h⟩
+
+/-- what `lookupLast` finds is a member -/
+theorem lookupLast_mem (k : Bytes) (val : JV) (ms : List (Bytes × JV)) (h : Spec.Canon.lookupLast k ms = some val) :
+    (k, val) ∈ ms := by
+  unfold Spec.Canon.lookupLast at h
+  have gen : ∀ (l : List (Bytes × JV)) (acc : Option JV),
+      l.foldl (fun acc kv => if kv.1 = k then some kv.2 else acc) acc = some val →
+      acc = some val ∨ (k, val) ∈ l := by
+    intro l
+    induction l with
+    | nil => intro acc h; exact .inl h
+    | cons kv l ih =>
+      intro acc h
+      rw [List.foldl_cons] at h
+      rcases ih _ h with h' | h'
+      · by_cases hk : kv.1 = k
+        · rw [if_pos hk] at h'
+          right
+          have : kv = (k, val) := by
+            obtain ⟨a, b⟩ := kv
+            simp only [Option.some.injEq] at h'
+            simp only at hk
+            rw [hk, h']
+          rw [this]; exact List.mem_cons_self
+        · rw [if_neg hk] at h'; exact .inl h'
+      · exact .inr (List.mem_cons_of_mem _ h')
+  rcases gen ms none h with h' | h'
+  · cases h'
+  · exact h'
+
+/-- the object `canon` builds holds member values only -/
+theorem numLeaves_objectOf (cfg : Spec.Canon.Cfg) (kvs : List (Bytes × JV)) (x : Num)
+    (h : x ∈ numLeaves (Spec.Canon.objectOf cfg kvs)) : x ∈ numLeavesMembers kvs := by
+  unfold Spec.Canon.objectOf at h
+  simp only [numLeaves] at h
+  rw [mem_numLeavesMembers] at h ⊢
+  obtain ⟨kv, hkv, hx⟩ := h
+  rw [List.mem_filterMap] at hkv
+  obtain ⟨k, _, hk⟩ := hkv
+  rw [Option.map_eq_some_iff] at hk
+  obtain ⟨val, hl, rfl⟩ := hk
+  exact ⟨(k, val), lookupLast_mem k val kvs hl, hx⟩
+
+mutual
+/-- **every number of `canon t` is `numOf` of a number node of `t`** -/
+theorem canon_leaves (cfg : Spec.Canon.Cfg) : (t : CST) → (v : JV) → Spec.Canon.canon cfg t = some v →
+    ∀ x ∈ numLeaves v, ∃ p ∈ numNodes t, numOf cfg p = some x
+  | .null, v => by intro h x hx; simp only [Spec.Canon.canon, Option.some.injEq] at h; subst h; simp [numLeaves] at hx
+  | .true_, v => by intro h x hx; simp only [Spec.Canon.canon, Option.some.injEq] at h; subst h; simp [numLeaves] at hx
+  | .false_, v => by intro h x hx; simp only [Spec.Canon.canon, Option.some.injEq] at h; subst h; simp [numLeaves] at hx
+  | .str s, v => by
+    intro h x hx
+    simp only [Spec.Canon.canon, Option.map_eq_some_iff] at h
+    obtain ⟨_, _, rfl⟩ := h
+    simp [numLeaves] at hx
+  | .num q, v => by
+    intro h x hx
+    simp only [Spec.Canon.canon, Option.map_eq_some_iff] at h
+    obtain ⟨y, hy, rfl⟩ := h
+    simp only [numLeaves, List.mem_singleton] at hx
+    subst hx
+    exact ⟨q, by simp [numNodes], hy⟩
+  | .arr xs, v => by
+    intro h x hx
+    simp only [Spec.Canon.canon, Option.map_eq_some_iff] at h
+    obtain ⟨vs, hvs, rfl⟩ := h
+    simp only [numLeaves] at hx
+    simp only [numNodes]
+    exact canonList_leaves cfg xs vs hvs x hx
+  | .obj ms, v => by
+    intro h x hx
+    simp only [Spec.Canon.canon, Option.map_eq_some_iff] at h
+    obtain ⟨kvs, hkvs, rfl⟩ := h
+    simp only [numNodes]
+    exact canonMembers_leaves cfg ms kvs hkvs x (numLeaves_objectOf cfg kvs x hx)
+theorem canonList_leaves (cfg : Spec.Canon.Cfg) : (xs : List CST) → (vs : List JV) →
+    Spec.Canon.canonList cfg xs = some vs → ∀ x ∈ numLeavesList vs, ∃ p ∈ numNodesList xs, numOf cfg p = some x
+  | [], vs => by
+    intro h x hx
+    simp only [Spec.Canon.canonList, Option.some.injEq] at h
+    subst h; simp [numLeavesList] at hx
+  | t :: ts, vs => by
+    intro h x hx
+    simp only [Spec.Canon.canonList] at h
+    cases h1 : Spec.Canon.canon cfg t with
+    | none => rw [h1] at h; cases h
+    | some v1 =>
+      cases h2 : Spec.Canon.canonList cfg ts with
+      | none => rw [h1, h2] at h; cases h
+      | some vs2 =>
+        rw [h1, h2] at h
+        simp only [Option.some.injEq] at h
+        subst h
+        simp only [numLeavesList, List.mem_append] at hx
+        simp only [numNodesList, List.mem_append]
+        rcases hx with hx | hx
+        · obtain ⟨p, hp, hn⟩ := canon_leaves cfg t v1 h1 x hx
+          exact ⟨p, .inl hp, hn⟩
+        · obtain ⟨p, hp, hn⟩ := canonList_leaves cfg ts vs2 h2 x hx
+          exact ⟨p, .inr hp, hn⟩
+theorem canonMembers_leaves (cfg : Spec.Canon.Cfg) : (ms : List (List StrItem × CST)) → (kvs : List (Bytes × JV)) →
+    Spec.Canon.canonMembers cfg ms = some kvs →
+    ∀ x ∈ numLeavesMembers kvs, ∃ p ∈ numNodesMembers ms, numOf cfg p = some x
+  | [], kvs => by
+    intro h x hx
+    simp only [Spec.Canon.canonMembers, Option.some.injEq] at h
+    subst h; simp [numLeavesMembers] at hx
+  | (k, t) :: ms, kvs => by
+    intro h x hx
+    simp only [Spec.Canon.canonMembers] at h
+    cases h0 : Spec.Denote.decodeItems k with
+    | none => rw [h0] at h; cases h
+    | some kb =>
+      cases h1 : Spec.Canon.canon cfg t with
+      | none => rw [h0, h1] at h; cases h
+      | some v1 =>
+        cases h2 : Spec.Canon.canonMembers cfg ms with
+        | none => rw [h0, h1, h2] at h; cases h
+        | some r =>
+          rw [h0, h1, h2] at h
+          simp only [Option.some.injEq] at h
+          subst h
+          simp only [numLeavesMembers, List.mem_append] at hx
+          simp only [numNodesMembers, List.mem_append]
+          rcases hx with hx | hx
+          · obtain ⟨p, hp, hn⟩ := canon_leaves cfg t v1 h1 x hx
+            exact ⟨p, .inl hp, hn⟩
+          · obtain ⟨p, hp, hn⟩ := canonMembers_leaves cfg ms r h2 x hx
+            exact ⟨p, .inr hp, hn⟩
+end
+
+/-- a number `x` stored for the literal `p`, `float_roundtrip`: nearest-even float of the exact decimal value, or the exact integer -/
+def NearestNum (p : NumParts) : Num → Prop
+  | .float b => roundNE64 p.minus (litOf p).exact.1 (litOf p).exact.2 = some b ∧
+      IsNearestEven64 p.minus (litOf p).exact.1 (litOf p).exact.2 b
+  | .pos n => p.minus = false ∧ p.frac = [] ∧ p.exp = [] ∧ n = Model.Num.natOfDigits p.int
+  | .neg k => p.minus = true ∧ p.frac = [] ∧ p.exp = [] ∧ k = -(Model.Num.natOfDigits p.int : Int)
+  | .lit _ => False
+
+/-- a number `x` stored for the literal `p`, default build: finite, signed, within 5 ulp, exact inside the window; or the exact integer -/
+def Within5Num (p : NumParts) : Num → Prop
+  | .float b => F64.isFinite b = true ∧ F64.sign b = p.minus ∧
+      withinUlps 5 p.minus (litOf p).exact.1 (litOf p).exact.2 b = true ∧
+      ((litOf p).sigVal < 10 ^ 15 → -22 ≤ (litOf p).netExp → (litOf p).netExp ≤ 22 →
+        roundNE64 p.minus (litOf p).exact.1 (litOf p).exact.2 = some b)
+  | .pos n => p.minus = false ∧ p.frac = [] ∧ p.exp = [] ∧ n = Model.Num.natOfDigits p.int
+  | .neg k => p.minus = true ∧ p.frac = [] ∧ p.exp = [] ∧ k = -(Model.Num.natOfDigits p.int : Int)
+  | .lit _ => False
+
+theorem nearestNum_of_leaf (cfg : Spec.Canon.Cfg) (p : NumParts) (h : LeafNearest cfg p) (x : Num)
+    (hx : numOf cfg p = some x) : NearestNum p x := by
+  cases x with
+  | float b => exact h.1 b hx
+  | pos n => exact h.2.1 _ hx
+  | neg k => exact h.2.1 _ hx
+  | lit s => exact absurd hx (h.2.2 s)
+
+theorem within5Num_of_leaf (cfg : Spec.Canon.Cfg) (p : NumParts) (h : Leaf5ulp cfg p) (x : Num)
+    (hx : numOf cfg p = some x) : Within5Num p x := by
+  cases x with
+  | float b => exact h.1 b hx
+  | pos n => exact h.2.1 _ hx
+  | neg k => exact h.2.1 _ hx
+  | lit s => exact absurd hx (h.2.2 s)
 
 end SJ.Proofs.C02Floats
